@@ -17,6 +17,17 @@ for pid, patch, tag in jobs:
         continue
     if not os.path.exists(patch) or not os.path.exists(os.path.join(HOME, "checks", pid.lower() + ".py")):
         continue
+    try:
+        meta = json.load(open(os.path.join(os.path.dirname(patch), "meta.json")))
+    except Exception:
+        meta = {}
+    if meta.get("neutralised"):
+        matrix = json.load(open(mpath)) if os.path.exists(mpath) else {}
+        matrix[tag] = {"verdict": "NEUTRALISED-BY-FIX", "tier": "quick", "failures": [], "note": meta["neutralised"][:200]}
+        json.dump(matrix, open(mpath + ".tmp%d" % os.getpid(), "w"), indent=1, sort_keys=True)
+        os.replace(mpath + ".tmp%d" % os.getpid(), mpath)
+        print(tag, "NEUTRALISED-BY-FIX")
+        continue
     r = subprocess.run([os.path.join(HOME, "tools", "mut.py"), pid, "--patch", patch], stdout=subprocess.PIPE,
                        stderr=subprocess.STDOUT, text=True)
     out = r.stdout
